@@ -26,6 +26,12 @@ CHECKS = {
  "C09": (MC, "TLC: GenLit generator + Lexer.tla decoding oracle; replay of literals in nine contexts into the real compiler", "6.C09",
          "GenLit.tla enumerates literal bodies (all bodies of <=2 symbols quick, <=3 thorough) over Lexer.tla's alphabet - every escape of the property, escaped quotes/backslashes, comment markers, #, @, macro names - in nine contexts (initialiser, pointer table, adjacent concatenation, call argument, asm, two per line, after code/before comment, inside #if, character constant); the stored bytes must equal Lexer!LiteralBytes.",
          "Trusted: Lexer.tla symbol table (self-tested), renderer. Literals the compiler refuses are not judged."),
+ "C08": (MC, "TLC: GenMacro generator + MacroRef token-level expansion oracle; replay into the real preprocessor (hook H2)", "6.C08",
+         "GenMacro.tla enumerates ordered subsets of nine definitions (object-like, function-like with 0-3 parameters, bodies using earlier macros, parameter names occurring inside longer identifiers), #undef/redefinition tails, source vs -D origin, 0-198 filler macros around the 100-macro chunk boundaries, and 45 use sites; the preprocessed token sequence must equal MacroRef!Expand for a tight and a spaced rendering.",
+         "Trusted: MacroRef (self-tested), token splitter of the driver. No # / ## / variadics / recursion (outside the property)."),
+ "C10": (MC, "TLC: GenCalc generator + Calc.tla C-grammar evaluator; replay of constant expressions in five constant positions into the real compiler", "6.C10",
+         "GenCalc.tla enumerates token strings (all ordered pairs of the 17 binary operators over six literal triples, both parenthesisations, unary operators in every operand position, chains, nested ?:, hex/octal/character literals, overflow and division-by-zero edges) with the value Calc.tla assigns; each is compiled in initialiser, array size, array element, aligned() and asm size position. Values that fit must be exact; division by zero and >31-bit values must be errors; never a crash.",
+         "Trusted: Calc.tla (self-tested). >> of negatives and shift counts >= 16 are not decided; 17..31-bit values may be rejected or exact."),
  "C13": (MC, "TLC: Asm.tla legality/label acceptance over every emitted function", "6.C13",
          "Every emitted function of the corpus (as C04, plus label-stress programs: repeated/nested inlining, goto labels, loops and early returns in inlined code, long-branch repair) must use only (mnemonic, mode) pairs of the 6502, define each label once and define every reference.",
          "Trusted: Enc6502 table, harness operand splitter. Inline-function bodies are templates and are judged only where expanded."),
